@@ -214,7 +214,11 @@ def _precise_cells(ctx, names):
     crate, mods, excl = nf_common.AREAS[AREA][:3]
     flat.DISTINCT_PHI = True
     try:
-        r = nf.area_nf(ctx.ast, crate, mods, excl, (), None, tuple(names))
+        try:
+            known = set(nf_common.area_ref(AREA, ctx))  # a private helper the reviewed tree did not have is written out in its callers
+        except (OSError, ValueError, KeyError):
+            known = None
+        r = nf.area_nf(ctx.ast, crate, mods, excl, (), known, tuple(names))
     finally:
         flat.DISTINCT_PHI = False
     out = {}
